@@ -80,8 +80,13 @@ func addMapping(m *Map, seqno, delta, pidDelta uint16) {
 
 	i := m.lastEntry
 	if delta == m.entries[i].delta && pidDelta == m.entries[i].pidDelta {
-		m.entries[m.lastEntry].count = seqno - m.entries[i].first + 1
-		return
+		count := seqno - m.entries[i].first + 1
+		if count <= 8192 {
+			m.entries[m.lastEntry].count = count
+			return
+		}
+		// keep intervals short, the comparisons in direct and
+		// Reverse are modulo 2^16.  Start a new interval.
 	}
 
 	f := seqno
